@@ -7,7 +7,7 @@ LEAN_SUBDIRS = _batcher.LEAN_SUBDIRS
 THEOREMS = ['AiutiVerif.Batcher.C10_batch_sizes', 'AiutiVerif.Batcher.C10_batch_sizes_out',
             'AiutiVerif.Batcher.C10_batch_sizes_prefix', 'AiutiVerif.Batcher.C10_batch_sizes_fixed',
             'AiutiVerif.Batcher.C10_concurrency', 'AiutiVerif.Batcher.C10_fifo', 'AiutiVerif.Batcher.C10_fifo_final',
-            'AiutiVerif.Batcher.fire_eq', 'AiutiVerif.Batcher.C11_fresh_adds_work']
+            'AiutiVerif.Batcher.fire_eq', 'AiutiVerif.Batcher.C11_fresh_adds_work', 'AiutiVerif.Batcher.C10_on_time']
 ASSUMPTIONS = list(_batcher.ASSUMPTIONS_COMMON)
 RULE = ('arrival sequences of up to 12 calls with distinct keys over a grid straddling batch_timeout (including same-instant calls), max_batch_size 1..5 (also mutated while running), max_concurrent_batches 1..3, batch durations from 0 to several batch_timeouts; every program runs on the real AsyncBackgroundBatcher under a virtual clock and on the Lean '
         'machine, the event streams are compared on the components this property mentions, and an independent '
